@@ -757,6 +757,10 @@ type RelayCase struct {
 	CT     string `json:"ct"`
 	Mut    string `json:"mut"`
 	Body   []byte `json:"body"`
+	// Cuts: the backend flushes and pauses 15 ms after these many body bytes (ascending), so that
+	// the rest arrives in reads of its own ("tail" = cut two bytes before the end, e.g. between
+	// the last line and its closing blank line)
+	Cuts []int `json:"cuts,omitempty"`
 }
 
 func genRelay(t *rapid.T) RelayCase {
@@ -791,6 +795,18 @@ func genRelay(t *rapid.T) RelayCase {
 		sd := rapid.SampledFrom(smallSeeds[group]).Draw(t, "seed")
 		var dummy Case
 		c.Mut, c.Body = mutateBytes(t, sd.Data, smallSeeds[group], &dummy)
+	}
+	if n := len(c.Body); n > 4 && n <= 64<<10 {
+		switch rapid.IntRange(0, 3).Draw(t, "cuts") {
+		case 0:
+			c.Cuts = []int{n - 1} // the final byte (usually the closing newline) arrives alone
+		case 1:
+			a := rapid.IntRange(1, n-1).Draw(t, "cut")
+			c.Cuts = []int{a}
+			if b := rapid.IntRange(a, n-1).Draw(t, "cut2"); b > a {
+				c.Cuts = append(c.Cuts, b)
+			}
+		}
 	}
 	return c
 }
@@ -987,7 +1003,19 @@ func (c RelayCase) respond(w http.ResponseWriter, _ *http.Request, _ *backend.Se
 	}
 	w.Header().Set("X-Backend-Id", "R")
 	w.WriteHeader(c.Status)
-	_, _ = w.Write(c.Body)
+	off := 0
+	for _, k := range c.Cuts {
+		if k <= off || k >= len(c.Body) {
+			continue
+		}
+		_, _ = w.Write(c.Body[off:k])
+		if f, ok := w.(http.Flusher); ok {
+			f.Flush()
+		}
+		time.Sleep(15 * time.Millisecond)
+		off = k
+	}
+	_, _ = w.Write(c.Body[off:])
 }
 
 func runRelay(c RelayCase) []ev.Violation {
